@@ -531,6 +531,23 @@ func c18battery(f *c18fs, m *c18model, viol func(sig, detail string)) {
 			if !nd.dir && o.Attributes.Size != uint64(len(nd.data)) {
 				viol("getattr-size", fmt.Sprintf("inode %d size %d, model %d", id, o.Attributes.Size, len(nd.data)))
 			}
+			// link count of a POSIX tree: 1 for a linked file, 2 (root: what the empty mount reports) + number of sub-directories for a directory (the mount
+			// relies on it: a directory whose count reaches 0 is treated as unlinked when the kernel forgets it)
+			wantLinks := uint32(1)
+			if nd.dir {
+				wantLinks = 2
+				if id == 1 {
+					wantLinks = c18rootLinks() // the mount's own convention for its empty root
+				}
+				for _, c := range m.dirs[id] {
+					if cn := m.nodes[c]; cn != nil && cn.dir {
+						wantLinks++
+					}
+				}
+			}
+			if o.Attributes.Nlink != wantLinks {
+				viol(fmt.Sprintf("getattr-nlink|dir=%v", nd.dir), fmt.Sprintf("inode %d reports %d links, a POSIX tree has %d", id, o.Attributes.Nlink, wantLinks))
+			}
 		})
 		if nd.dir {
 			var names []string
@@ -676,6 +693,24 @@ func c18battery(f *c18fs, m *c18model, viol func(sig, detail string)) {
 	})
 }
 
+var (
+	c18rootOnce  sync.Once
+	c18rootNlink uint32
+)
+
+// c18rootLinks is the link count an empty mount reports for its root.
+func c18rootLinks() uint32 {
+	c18rootOnce.Do(func() {
+		f := newC18fs()
+		defer f.close()
+		o := &fuseops.GetInodeAttributesOp{Inode: fuseops.RootInodeID}
+		if err := f.fs.GetInodeAttributes(context.Background(), o); err == nil {
+			c18rootNlink = o.Attributes.Nlink
+		}
+	})
+	return c18rootNlink
+}
+
 // build replays a history on a fresh file system; returns nil model if the history no longer applies.
 func c18build(h []c18op) (*c18fs, *c18model, string) {
 	f := newC18fs()
@@ -699,7 +734,7 @@ func TestC18(t *testing.T) {
 	if lib.Thorough() {
 		depth, extra = 6, 1
 	}
-	rep.Rule = fmt.Sprintf("BFS over histories (depth <=%d; states first reached at that depth whose history released an inode - unlinked and forgotten, so inode numbers and staging files get recycled - are explored %d more level(s)) of CreateFile / MkDir / WriteFile(off 0|3, 'x'|'yz') / SetInodeAttributes(size 0|1|5) / Rename(all directory x name pairs) / Unlink / RmDir / LookUpInode / ForgetInode(n <= lookup count), names {a,b}, any live directory as parent, on the real fsMutable (fresh instance + replay per state, scratch staging dir), de-duplicated on (POSIX tree model with lookup counts, implementation dump of lookup tree / readdir map / node store / inode allocator, staging files with content); every transition compared with the model (result, errno; ENOSYS = declined if the state is unchanged); in every state: getattr, ReadDir with the resume protocol at 3 buffer sizes, ReadFile, inode uniqueness, and a Commit whose bundle must equal the visible tree; a fatal error of the process is a violation; distinct = distinct states", depth, extra)
+	rep.Rule = fmt.Sprintf("BFS over histories (depth <=%d; states first reached at that depth whose history released an inode - unlinked and forgotten, so inode numbers and staging files get recycled - are explored %d more level(s)) of CreateFile / MkDir / WriteFile(off 0|3, 'x'|'yz') / SetInodeAttributes(size 0|1|5) / Rename(all directory x name pairs) / Unlink / RmDir / LookUpInode / ForgetInode(n <= lookup count), names {a,b}, any live directory as parent, on the real fsMutable (fresh instance + replay per state, scratch staging dir), de-duplicated on (POSIX tree model with lookup counts, implementation dump of lookup tree / readdir map / node store / inode allocator, staging files with content); every transition compared with the model (result, errno; ENOSYS = declined if the state is unchanged); in every state: getattr (type, size, link count), ReadDir with the resume protocol at 3 buffer sizes, ReadFile, inode uniqueness, and a Commit whose bundle must equal the visible tree; a fatal error of the process is a violation; distinct = distinct states", depth, extra)
 	skip := []string{}
 	parallel := true
 	for attempt := 0; attempt < 24; attempt++ {
